@@ -440,6 +440,17 @@ impl<T: Float + std::ops::AddAssign> Categorical<T> {
     }
 }
 
+#[cfg(feature = "verif")]
+impl<T: Float + std::ops::AddAssign> Categorical<T> {
+    /// Verification constructor: like [`Categorical::new`] but with a caller-supplied generator,
+    /// so that the uniform variate consumed by `sample` can be chosen.
+    pub fn with_rng(probs: Vec<T>, rng: SmallRng) -> Self {
+        let mut cat = Self::new(probs);
+        cat.rng = rng;
+        cat
+    }
+}
+
 impl<T: Float + std::ops::AddAssign> Discrete<T> for Categorical<T>
 where
     StandardUniform: rand::distr::Distribution<T>,
